@@ -33,7 +33,7 @@ PROPS = {
         "case_sets": ["parse"],
         "ops": ["PARSE", "PARSEV"],
         "oracle_clauses": [r"c07-.*", r"c08-unaccounted", r"c15-statement-count", r"unreadable-.*"],
-        "lean_targets": ["PqlModel.Props.C07", "PqlModel.Props.C07Full", "PqlModel.Props.C07Layout", "PqlModel.Props.C07Keywords", "PqlModel.Props.C07Defaults", "PqlModel.Props.C07OperatorIRTreesA", "PqlModel.Props.C07OperatorIRTreesB", "PqlModel.Props.C07OperatorIR", "PqlModel.Props.C07OperatorIRSort", "PqlModel.Props.C07OperatorIRExtend", "PqlModel.Props.C07OperatorIRProject", "PqlModel.Props.C07OperatorIRLet", "PqlModel.Props.C07OperatorIRTabular", "PqlModel.Props.C07OperatorIRSummarize", "PqlModel.Props.C07OperatorIRRender", "PqlModel.Props.C07OperatorIRJoin", "PqlModel.Props.C07OperatorIRParse", "PqlModel.Props.C07ExprIR", "PqlModel.Props.C07ParserIR"],
+        "lean_targets": ["PqlModel.Props.C07", "PqlModel.Props.C07Full", "PqlModel.Props.C07Layout", "PqlModel.Props.C07Keywords", "PqlModel.Props.C07Defaults", "PqlModel.Props.C07OperatorIRTreesA", "PqlModel.Props.C07OperatorIRTreesB", "PqlModel.Props.C07OperatorIR", "PqlModel.Props.C07OperatorIRSort", "PqlModel.Props.C07OperatorIRExtend", "PqlModel.Props.C07OperatorIRProject", "PqlModel.Props.C07OperatorIRLet", "PqlModel.Props.C07OperatorIRTabular", "PqlModel.Props.C07OperatorIRSummarize", "PqlModel.Props.C07OperatorIRRender", "PqlModel.Props.C07OperatorIRJoin", "PqlModel.Props.C07OperatorIRParse", "PqlModel.Props.C07ExprIR", "PqlModel.Props.C07ParserIR", "PqlModel.Props.C07OperatorIRTerm"],
         "facts": ["precedence", "keywords", "joinTypes", "operatorKeywords", "sortTermInit", "sortTermFirst", "sortTermNullsKeyword", "sortTermNulls", "rowCountCheck", "joinInit", "joinKindKeyword", "joinKindSets", "joinUnknownFlavorContinues", "parseIR", "exprParseIR", "exprParseParams", "exprParseResults"],
         "rule": "PARSEV: programs generated from the grammar (every operator, every expression form incl. the `in` rule, "
                 "nested joins, lets, render; random layout, comments, keyword synonyms, redundant and required parentheses); "
@@ -72,8 +72,8 @@ PROPS = {
         "case_sets": ["parse", "compile", "walk", "lex", "weirdparams"],
         "ops": ["PARSE", "PARSEV", "SCAN", "SPLIT", "WALK", "COMPILE", "COMPILESEQ"],
         "oracle_clauses": [r"c12-.*"],
-        "lean_targets": ["PqlModel.Props.C12", "PqlModel.Props.C12Fuel", "PqlModel.Props.C13Exact", "PqlModel.Props.C10SpanIR", "PqlModel.Props.C11WalkIR"],
-        "facts": ["astIR"],
+        "lean_targets": ["PqlModel.Props.C12", "PqlModel.Props.C12Fuel", "PqlModel.Props.C13Exact", "PqlModel.Props.C10SpanIR", "PqlModel.Props.C11WalkIR", "PqlModel.Props.C12NoPanicIR"],
+        "facts": ["astIR", "parseIR", "lexNumberIR", "lexSplitIR", "linecolIR", "exprIR", "writeIR", "splitIR", "joinCondIR", "cliIR"],
         "rule": "every case of the lexer, parser and walk sets runs under recover and a watchdog (5 s in the parallel pool, then 10 s alone before HANG is reported), including pathological "
                 "nesting of brackets, calls, indexes, signs, joins and error cascades up to a few KiB; non-trivial = distinct input",
         "assumptions": ["wall-clock time and stack exhaustion belong to the Go runtime: measured by the watchdog, not proved"],
@@ -149,8 +149,8 @@ PROPS = {
         "case_sets": ["cli"],
         "ops": ["CLI"],
         "oracle_clauses": [r"c16-.*", r"unreadable-.*"],
-        "lean_targets": ["PqlModel.Props.C16a", "PqlModel.Props.C16", "PqlModel.Props.C16IO", "PqlModel.Props.C16Semantics", "PqlModel.Props.C05NoPlaceholderCli", "PqlModel.Props.C16RunIR"],
-        "facts": ["cliIR", "cliRunParams"],
+        "lean_targets": ["PqlModel.Props.C16a", "PqlModel.Props.C16", "PqlModel.Props.C16IO", "PqlModel.Props.C16Semantics", "PqlModel.Props.C05NoPlaceholderCli", "PqlModel.Props.C16RunIR", "PqlModel.Props.C16IOIRTrees", "PqlModel.Props.C16IOIR", "PqlModel.Props.C16IOIRMake"],
+        "facts": ["cliIR", "cliRunParams", "cliIOIR"],
         "rule": "CLI: the built cmd/pql binary on scripts (sequences of let / query / invalid statements, several per line, across "
                 "lines, comments, blank lines, CRLF, final statement terminated or not, lines around the 64 KiB limit) via stdin, "
                 "one file, several files (statements spanning file boundaries) and -o; stdout, exit status and error count are "
@@ -161,8 +161,8 @@ PROPS = {
         "case_sets": ["eval"],
         "ops": ["EVAL"],
         "oracle_clauses": [r"c02-.*", r"c05-parse", r"c05-name-capture", r"unreadable-.*"],
-        "lean_targets": ["PqlModel.Props.C02", "PqlModel.Props.C02Split", "PqlModel.Props.C05SplitRefines", "PqlModel.Props.C02Semantics", "PqlModel.Props.C02Statement", "PqlModel.Props.C02SemanticsCex", "PqlModel.Props.C05ParseStatement", "PqlModel.Props.C03Full", "PqlModel.Props.C02EndToEnd", "PqlModel.Props.C05Parsed", "PqlModel.Props.C02EndToEndSource", "PqlModel.Props.C05WriteIR", "PqlModel.Props.C05WriteIROps", "PqlModel.Props.C05WriteIRAll", "PqlModel.Props.C05WriteIRStmt", "PqlModel.Props.C07Defaults", "PqlModel.Props.C02SplitImperative", "PqlModel.Props.C06Placeholders", "PqlModel.Props.C02ProgramNames", "PqlModel.Props.C02SplitIR", "PqlModel.Props.C03JoinCondIR"],
-        "facts": ["canAttachSortFalse", "writeIR", "writeSwitches", "sortTermInit", "sortTermFirst", "sortTermNullsKeyword", "sortTermNulls", "rowCountCheck", "splitIR", "splitLoop", "splitCases", "splitParams", "joinCondIR"],
+        "lean_targets": ["PqlModel.Props.C02", "PqlModel.Props.C02Split", "PqlModel.Props.C05SplitRefines", "PqlModel.Props.C02Semantics", "PqlModel.Props.C02Statement", "PqlModel.Props.C02SemanticsCex", "PqlModel.Props.C05ParseStatement", "PqlModel.Props.C03Full", "PqlModel.Props.C02EndToEnd", "PqlModel.Props.C05Parsed", "PqlModel.Props.C02EndToEndSource", "PqlModel.Props.C05WriteIR", "PqlModel.Props.C05WriteIROps", "PqlModel.Props.C05WriteIRAll", "PqlModel.Props.C05WriteIRStmt", "PqlModel.Props.C07Defaults", "PqlModel.Props.C02SplitImperative", "PqlModel.Props.C06Placeholders", "PqlModel.Props.C02ProgramNames", "PqlModel.Props.C02SplitIR", "PqlModel.Props.C03JoinCondIR", "PqlModel.Props.C07OperatorIRTerm"],
+        "facts": ["canAttachSortFalse", "writeIR", "writeSwitches", "sortTermInit", "sortTermFirst", "sortTermNullsKeyword", "sortTermNulls", "rowCountCheck", "splitIR", "splitLoop", "splitCases", "splitParams", "joinCondIR", "parseIR"],
         "rule": "EVAL: every sequence of up to 3 (quick) / 4 (thorough) of the eleven operators with fixed small arguments, a corpus of "
                 "order-sensitive pipelines and random generated pipelines over tables T U V; the emitted SQL is evaluated by the "
                 "reference SQL evaluator and compared (as lists: columns, names, rows, order) with the left-to-right pipeline "
